@@ -67,8 +67,15 @@ def build_ellipse_model(shape, isolist, fill=0.0, high_harmonics=False):
         isolist.sma, isolist.intens, nodes)(finely_spaced_sma)
     eps_array = LSQUnivariateSpline(
         isolist.sma, isolist.eps, nodes)(finely_spaced_sma)
+    # the position angle is defined modulo pi: remove jumps of pi between
+    # consecutive isophotes (e.g. 0.001 -> 3.14) before interpolating;
+    # the odd harmonics change sign when the reference angle is shifted
+    # by an odd multiple of pi
+    pa_values = np.unwrap(2.0 * np.asarray(isolist.pa)) / 2.0
+    nturns = np.rint((pa_values - np.asarray(isolist.pa)) / np.pi)
+    odd_sign = np.where(nturns % 2 == 0, 1.0, -1.0)
     pa_array = LSQUnivariateSpline(
-        isolist.sma, isolist.pa, nodes)(finely_spaced_sma)
+        isolist.sma, pa_values, nodes)(finely_spaced_sma)
     x0_array = LSQUnivariateSpline(
         isolist.sma, isolist.x0, nodes)(finely_spaced_sma)
     y0_array = LSQUnivariateSpline(
@@ -76,9 +83,9 @@ def build_ellipse_model(shape, isolist, fill=0.0, high_harmonics=False):
     grad_array = LSQUnivariateSpline(
         isolist.sma, isolist.grad, nodes)(finely_spaced_sma)
     a3_array = LSQUnivariateSpline(
-        isolist.sma, isolist.a3, nodes)(finely_spaced_sma)
+        isolist.sma, isolist.a3 * odd_sign, nodes)(finely_spaced_sma)
     b3_array = LSQUnivariateSpline(
-        isolist.sma, isolist.b3, nodes)(finely_spaced_sma)
+        isolist.sma, isolist.b3 * odd_sign, nodes)(finely_spaced_sma)
     a4_array = LSQUnivariateSpline(
         isolist.sma, isolist.a4, nodes)(finely_spaced_sma)
     b4_array = LSQUnivariateSpline(
